@@ -349,7 +349,7 @@ def run_random(c, d, seed, nbeh, label):
 # every pruning option, and the history goes on from there conforming to the specification.
 CRASH_CFGS = [
     cfg(N=3, GenBal=(9, 9, 5), GenVals=gv((1, 4), (2, 2)), MaxVals=2, UnstakeTime=1, Kinds=ALLK, SendTos={1, 2, 5, 8}, Amts={1, 2, 4}, MaxExt=2,
-        AwardTos={1, 2, 8}, BurnNums={1, 2}, Props={0, 1, 2}, MaxHeight=7, MaxTx=3, EvOn=True, MissOn=True, EvPowers={1, 2}, MaxCrashes=3, MaxRO=1),
+        AwardTos={1, 2, 8}, BurnNums={1, 2}, Props={0, 1, 2}, MaxHeight=7, MaxTx=3, EvOn=True, MissOn=True, EvPowers={1, 2}, MaxCrashes=3, MaxRO=2),
     cfg(N=2, GenBal=(9, 9), GenVals=gv((1, 4)), MaxVals=2, Kinds={"stake", "unstake", "send", "setparam"}, ParamVals={1, 2}, SendTos={1, 2}, Amts={2, 4},
         MaxHeight=6, MaxTx=3, MaxCrashes=2, MaxExports=1, UnstakeTime=2),
 ]
@@ -396,6 +396,14 @@ def stage_crash(out, prop, tier, seed, d):
             n = sum(1 for ln in lines if ln["act"]["a"] == "Crash")
             crashes += n
             out.cov["traces_validated_against_impl"] += len(behs)
+            committed = set()
+            for ln in lines:
+                if ln["act"]["a"] == "Commit":
+                    committed.add(ln["b"])
+                if ln["act"]["a"] == "ExportImport":
+                    committed.discard(ln["b"])
+                if ln["act"]["a"] == "Query" and ln["b"] in committed:
+                    out.notes["app_level_queries_checked_against_committed_answers"] = out.notes.get("app_level_queries_checked_against_committed_answers", 0) + 1
             where = out.notes.setdefault("app_level_crash_points_by_preceding_call", {})
             for k, ln in enumerate(lines):
                 if ln["act"]["a"] == "Crash" and k > 0:
@@ -403,6 +411,15 @@ def stage_crash(out, prop, tier, seed, d):
                     where[a] = where.get(a, 0) + 1
             for dv in divs:
                 ln = lines[dv["line"] - 1]
+                if ln["act"]["a"] == "Query" and "C12.QueryAnswersCommitted" in dv["bad"] and "C12.QueryAnswersCommitted" not in seen:
+                    seen.add("C12.QueryAnswersCommitted")
+                    beh = [x["act"] for x in lines if x["b"] == ln["b"] and x["i"] <= ln["i"]]
+                    out.violation(sig="C12.QueryAnswersCommitted",
+                                  what="a %s query for the latest committed height, asked while the next block executes, is not answered from what was committed (pruning %s, behaviour %d, step %d)" % (
+                                      ln["act"].get("kind"), pr, ln["b"], ln["i"]),
+                                  action="Query", kind=ln["act"].get("kind", ""), pruning=pr, predicates=sorted(dv["bad"]),
+                                  replay={"driver": "posdrv", "cfg": rcfg, "consts": {k: (sorted(v, key=str) if isinstance(v, (set, frozenset)) else v) for k, v in c.items()},
+                                          "actions": beh, "observed": ln["post"], "result": ln["res"]})
                 if ln["act"]["a"] != "Crash":
                     continue
                 sigs = []
@@ -422,6 +439,8 @@ def stage_crash(out, prop, tier, seed, d):
     out.notes["app_level_crashes_validated"] = crashes
     if crashes == 0:
         raise common.ToolError("no crash was executed on the real application")
+    if not out.notes.get("app_level_queries_checked_against_committed_answers"):
+        raise common.ToolError("no query was asked while a block was executing on top of a committed state")
 
 
 def attribute(prop, dv, line):
@@ -603,6 +622,9 @@ def replay(prop, path):
         lines = [json.loads(x) for x in open(tr)]
         bad = False
         for dv in divs:
+            if prop == "C12" and "C12.QueryAnswersCommitted" in dv["bad"]:
+                print("step %d: query not answered from the committed state" % dv["line"])
+                bad = True
             if prop == "C12" and lines[dv["line"] - 1]["act"]["a"] == "Crash" and (dv["div"] or "C12.CrashRecoversCommitted" in dv["bad"]):
                 print("step %d: crash and reopen: differs from what was committed in %s %s" % (dv["line"], sorted(dv["div"]), sorted(dv["bad"])))
                 bad = True
